@@ -384,7 +384,7 @@ fn allowed_str(s: &str) -> bool {
 }
 
 const fn allowed_char(c: u8) -> bool {
-    c >= 1 && c <= 9 || c == 11 || c == 12 || c >= 14 && c <= 127
+    c == b'\t' || c >= 32 && c <= 126
 }
 
 #[cfg(test)]
